@@ -163,8 +163,18 @@ func (p proxyStream) Context() context.Context {
 	return p.ctx
 }
 
+// makeGRPCTargetKey names the pooled connection for a target. A connection
+// to a TLS backend is made with the TLS options of the target: a target
+// with the same URL but other options (the registration was changed from
+// 'proto=grpcs' to 'proto=grpcs tlsskipverify=true', or two routes name the
+// same backend with different options) must not get the connection which
+// was made for the old ones. A URL contains no blank, so the key is unambiguous.
 func makeGRPCTargetKey(t *route.Target) string {
-	return t.URL.String()
+	key := t.URL.String()
+	if t.URL.Scheme == "grpcs" {
+		key += fmt.Sprintf(" tlsskipverify=%t grpcservername=%q", t.TLSSkipVerify, t.Opts["grpcservername"])
+	}
+	return key
 }
 
 func (g GrpcProxyInterceptor) Stream(srv interface{}, stream grpc.ServerStream, info *grpc.StreamServerInfo, handler grpc.StreamHandler) error {
